@@ -318,8 +318,27 @@ def run_monomial(ctx):
             ctx.fail(case, f"monomial(...) = {m} is not the list of single monomials with exponents {want}", ["op:monomial"])
 
 
+def run_wide_ranges(ctx):
+    """one-dimensional index ranges across the widths of the index table's integer type (255/256, 65535/65536): every
+    index between the bounds is there (D65: from 65536 on the indices wrapped around and were silently missing)"""
+    for lo, hi in ((250, 260), (65530, 65540), (65536, 65539), (70000, 70003)):
+        ctx.evaluations += 1
+        ctx.count("wide-range")
+        case = {"kind": "wide-range", "start": lo, "stop": hi}
+        try:
+            got = [int(x) for x in numpy.asarray(numpoly.glexindex(lo, hi)).ravel()]
+            mono = numpoly.monomial(lo, hi)
+            gotm = [int(e[0]) for e in mono.exponents.tolist()] if mono.size else []
+        except Exception as err:  # noqa: BLE001
+            ctx.fail(case, f"glexindex / monomial({lo}, {hi}) raised {type(err).__name__}: {str(err)[:100]}", ["wide-range", "raises"])
+            continue
+        if got != list(range(lo, hi)) or sorted(gotm) != list(range(lo, hi)) or mono.shape != (hi - lo,):
+            ctx.fail(case, f"glexindex({lo}, {hi}) = {got}, monomial exponents {gotm}; the indices between the bounds are {list(range(lo, hi))}", ["wide-range", "value"])
+
+
 def run(ctx):
     ctx.rule = RULE
+    run_wide_ranges(ctx)
     run_glexindex(ctx)
     run_cross_truncate(ctx)
     run_monomial(ctx)
@@ -350,6 +369,10 @@ def search(ctx):
 def replay(ctx, case):
     n = len(ctx.failures)
     kind = case["kind"]
+    if kind == "wide-range":
+        run_wide_ranges(ctx)
+        hits = [f for f in ctx.failures[n:] if f["case"].get("start") == case["start"]]
+        return hits[0]["what"] if hits else None
     if kind == "glexsort":
         keys = numpy.array(case["keys"], dtype=case.get("dtype", int))
         want = ref_glexsort(keys.T.astype(int).tolist(), case["graded"], case["reverse"])
